@@ -164,6 +164,51 @@ func checkGroupAssignment(s *Sim, cl *Cluster, g *Group, gr *GenRecord, metas ma
 		if max-min > 1 {
 			s.Fail("C14", "R2-uneven", "generation %d (%s): topic %s loads differ by %d", gr.Generation, gr.Protocol, t, max-min)
 		}
+		// R3 (rack-affinity): for every rack, at least min(partitions led in the
+		// rack, members in the rack x floor(partitions per member)) of the
+		// topic's partitions stay in the rack — measured with the racks the
+		// members were configured with, not the ones their metadata carried
+		if gr.Protocol == "rack-affinity" && cl.MemberRack != nil && len(top.Hist) == 0 {
+			rackOf := map[string]string{}
+			known := true
+			for _, m := range members {
+				r, ok := cl.MemberRack(m)
+				known = known && ok
+				rackOf[m] = r
+			}
+			if known && len(members) > 0 {
+				per := len(top.Parts) / len(members)
+				racks := map[string]bool{}
+				for _, m := range members {
+					if rackOf[m] != "" {
+						racks[rackOf[m]] = true
+					}
+				}
+				for _, rk := range SortedKeys(racks) {
+					inRack, led, local := 0, 0, 0
+					for _, m := range members {
+						if rackOf[m] == rk {
+							inRack++
+						}
+					}
+					for _, p := range top.Parts {
+						if b := cl.Broker(p.Leader); b != nil && b.Rack == rk {
+							led++
+							if rackOf[owner[t][p.ID]] == rk {
+								local++
+							}
+						}
+					}
+					want := inRack * per
+					if led < want {
+						want = led
+					}
+					if local < want {
+						s.Fail("C14", "R3-rack-affinity", "generation %d: topic %s, rack %q: %d of the %d partitions led in the rack are consumed by its %d members, want at least %d (members' racks %v)", gr.Generation, t, rk, local, led, inRack, want, rackOf)
+					}
+				}
+			}
+		}
 	}
 }
 
